@@ -76,8 +76,10 @@ class Graph:
         for e in edges:
             if e["req"]["lvl"] == drop:
                 continue
-            pk = json.dumps([canon_state(e["pre"]), e["d0"]])
-            qk = json.dumps([canon_state(e["post"]), e["d1"]])
+            if "_pk" not in e:
+                e["_pk"] = json.dumps([canon_state(e["pre"]), e["d0"]])
+                e["_qk"] = json.dumps([canon_state(e["post"]), e["d1"]])
+            pk, qk = e["_pk"], e["_qk"]
             rec = dict(pre=pk, post=qk, req=e["req"], resp=e["resp"], poststate=e["post"], d1=e["d1"], loop=(pk == qk))
             rec["id"] = len(self.edges)
             self.edges.append(rec)
